@@ -10,6 +10,7 @@ fn add<S: Subject>(jobs: &mut Vec<Box<dyn JobT>>, q: u64, t: u64, ex: &[Class], 
     // operands share history, hold removes that observed remote adds, hold pending removes (the
     // discipline is the weakest one the type documents), and are results of earlier merges
     let pc = PlanCfg::new(Weights::mixed().with_probe(14)).steps(6, 28).editors(2, 4);
+    let pc = pc.long_share(S::LONG);
     let ctx = Ctx::new(S::NEEDS).ex(ex).newest();
     jobs.push(mk_job(format!("{}/{:?}/ops+merges", S::name(), S::NEEDS), q, t, pc, ctx, check_merge_laws::<S>).floor("nontrivial", floor).boxed());
 }
@@ -17,9 +18,12 @@ fn add<S: Subject>(jobs: &mut Vec<Box<dyn JobT>>, q: u64, t: u64, ex: &[Class], 
 pub fn property() -> Property {
     let mut jobs: Vec<Box<dyn JobT>> = Vec::new();
     add::<SOrswot>(&mut jobs, 18000, 200_000, &[], 0.03);
+    add::<SOrswotBig>(&mut jobs, 4500, 50000, &[], 0.015);
     add::<SMVReg>(&mut jobs, 18000, 200_000, &[], 0.03);
     add::<MapOrswot>(&mut jobs, 18000, 200_000, &[Class::T1, Class::T3], 0.03);
+    add::<MapOrswotBig>(&mut jobs, 4500, 50000, &[Class::T1, Class::T3], 0.015);
     add::<MapMVReg>(&mut jobs, 18000, 200_000, &[Class::T1, Class::T3, Class::T5], 0.015);
+    add::<MapMVRegBig>(&mut jobs, 4500, 50000, &[Class::T1, Class::T3, Class::T5], 0.0075);
     add::<MapMapMVReg>(&mut jobs, 12000, 100_000, &[Class::T1, Class::T3, Class::T5], 0.03);
     add::<SGList>(&mut jobs, 9000, 60_000, &[], 0.03);
     add::<SMerkle>(&mut jobs, 9000, 60_000, &[], 0.03);
